@@ -503,7 +503,7 @@ func serverPlan(r *ev.Run) []serverCase {
 	var out []serverCase
 	n := r.Pick(3, 24)
 	for i := 0; i < n; i++ {
-		out = append(out, serverCase{Part: "server", Round: i, Clients: []int{8, 12, 16}[i%3], PerCli: r.Pick(100, 150)})
+		out = append(out, serverCase{Part: "server", Round: i, Clients: []int{8, 12, 16}[i%3], PerCli: r.Pick(70, 150)})
 	}
 	return out
 }
